@@ -54,8 +54,11 @@ def main():
         if rc != 0:
             res["apply_failed"] = out
             print(json.dumps(res, indent=1)); return 1
-        rc, out = sh("go build ./... && go vet ./...", wt)
+        # the bar is the baseline's: go build and the suite with -vet=off; go vet is recorded on the side
+        rc, out = sh("go build ./... && go test -vet=off -count=1 -run '^$' ./...", wt)
         res["compiles"] = rc == 0
+        rc, out = sh("go vet ./...", wt)
+        res["vet_clean"] = rc == 0
         rc, out = sh(demo_cmd, wt)
         res["demo_fails_with_change"] = rc != 0
         res["demo_with_tail"] = out[-1200:]
